@@ -355,8 +355,9 @@ pub fn gen_random(rng: &mut Rng, malformed: bool) -> Vec<Reg> {
 
 /// "funnel": many systems conflicting on few resources with skewed hints, so that groups
 /// fill up to the join limit and the balance heuristic flips
-pub fn gen_funnel(rng: &mut Rng) -> Vec<Reg> {
-    let n = 4 + rng.below(60);
+pub fn gen_funnel(rng: &mut Rng) -> Vec<Reg> { gen_funnel_n(rng, 60) }
+pub fn gen_funnel_n(rng: &mut Rng, max_extra: u64) -> Vec<Reg> {
+    let n = 4 + rng.below(max_extra);
     let n_res = 2 + rng.below(3) as u32;
     let mut out = Vec::new();
     let heavy = 3 + rng.below(3) as u8;
@@ -366,7 +367,11 @@ pub fn gen_funnel(rng: &mut Rng) -> Vec<Reg> {
             (vec![], vec![8 + rng.below(n_res as u64) as u32], heavy)
         } else {
             let w = 8 + rng.below(n_res as u64) as u32;
-            let r = if rng.chance(1, 3) { vec![8 + rng.below(n_res as u64) as u32] } else { vec![] };
+            let r = match rng.below(6) {
+                0 | 1 => vec![8 + rng.below(n_res as u64) as u32],
+                2 => vec![8 + rng.below(n_res as u64 + 2) as u32, 8 + rng.below(n_res as u64 + 2) as u32],
+                _ => vec![],
+            };
             (r, vec![w], 1 + rng.below(2) as u8)
         };
         let deps = if i > 0 && rng.chance(1, 10) { vec![format!("s{}", 1 + rng.below(i) as u32)] } else { vec![] };
